@@ -93,7 +93,7 @@ def evaluate(prop, tier, rules, repo, configs=None):
         ctx.current = cfg
         before = len(rep.instances)
         for rule in rules:
-            if cfg != "default" and getattr(rule, "__name__", "") in ("r_witness", "r_c11"):
+            if cfg != "default" and getattr(rule, "__name__", "") in ("r_witness", "r_c11", "r_c11_conv"):
                 continue
             try:
                 rule(ctx, rep)
